@@ -1,0 +1,305 @@
+// SPDX-License-Identifier: Apache-2.0
+//
+// Verification hooks, compiled only with the cargo feature `verif-hooks`.
+// Nothing here changes control flow or consumes entropy: it exposes the simulated
+// VM state as kind codes, lets a harness build a generator around a given simulated
+// state, and records a per-emission trace into a thread-local sink.
+
+use std::cell::RefCell;
+use std::collections::{HashMap, HashSet};
+
+use arbitrary::Unstructured;
+use rand::SeedableRng;
+use rand_chacha::ChaCha8Rng;
+
+use super::source::GenerationSource;
+use super::Generator;
+use crate::opcodes::{OpcodeKind, PICKLE_OPCODES};
+use crate::protocol::Version;
+use crate::stack::{InstanceObject, StackObject, StackObjectRef};
+
+/// one-letter code of the variant of a stack object
+pub fn kind_code(obj: &StackObject) -> char {
+    match obj {
+        StackObject::Int(_) => 'i',
+        StackObject::Float(_) => 'f',
+        StackObject::Bool(_) => 'b',
+        StackObject::None => 'n',
+        StackObject::Bytes(_) => 'y',
+        StackObject::String(_) => 's',
+        StackObject::ByteArray(_) => 'a',
+        StackObject::List(_) => 'l',
+        StackObject::Tuple(_) => 't',
+        StackObject::Dict(_) => 'd',
+        StackObject::Set(_) => 'e',
+        StackObject::FrozenSet(_) => 'z',
+        StackObject::Mark => 'M',
+        StackObject::Global { .. } => 'g',
+        StackObject::Instance(_) => 'o',
+        StackObject::Callable(_) => 'c',
+        StackObject::Extension(_) => 'x',
+        StackObject::Any => '?',
+    }
+}
+
+/// a fresh object of the variant with the given code
+pub fn object_of_code(c: char) -> Option<StackObject> {
+    let global = || StackObject::Global {
+        module: "builtins".to_string(),
+        name: "object".to_string(),
+    };
+    Some(match c {
+        'i' => StackObject::Int(7),
+        'f' => StackObject::Float(0.5),
+        'b' => StackObject::Bool(true),
+        'n' => StackObject::None,
+        'y' => StackObject::Bytes(vec![1, 2]),
+        's' => StackObject::String("s".to_string()),
+        'a' => StackObject::ByteArray(vec![3]),
+        'l' => StackObject::List(Vec::new()),
+        't' => StackObject::Tuple(Vec::new()),
+        'd' => StackObject::Dict(HashMap::new()),
+        'e' => StackObject::Set(HashSet::new()),
+        'z' => StackObject::FrozenSet(HashSet::new()),
+        'M' => StackObject::Mark,
+        'g' => global(),
+        'o' => StackObject::Instance(InstanceObject {
+            callable: StackObjectRef::new(global()),
+            args: StackObjectRef::new(StackObject::Tuple(Vec::new())),
+        }),
+        'c' => StackObject::Callable(StackObjectRef::new(global())),
+        'x' => StackObject::Extension(1),
+        '?' => StackObject::Any,
+        _ => return None,
+    })
+}
+
+/// all `OpcodeKind` variants, in declaration order
+pub const ALL_OPCODES: [OpcodeKind; 68] = {
+    use OpcodeKind::*;
+    [
+        Int, BinInt, BinInt1, BinInt2, Long, Long1, Long4, String, BinString, ShortBinString,
+        BinBytes, ShortBinBytes, BinBytes8, ByteArray8, NextBuffer, ReadOnlyBuffer, None, NewTrue,
+        NewFalse, Unicode, ShortBinUnicode, BinUnicode, BinUnicode8, Float, BinFloat, EmptyList,
+        Append, Appends, List, EmptyTuple, Tuple, Tuple1, Tuple2, Tuple3, EmptyDict, Dict,
+        SetItem, SetItems, EmptySet, AddItems, FrozenSet, Pop, Dup, Mark, PopMark, Get, BinGet,
+        LongBinGet, Put, BinPut, LongBinPut, Memoize, Ext1, Ext2, Ext4, Global, StackGlobal,
+        Reduce, Build, Inst, Obj, NewObj, NewObjEx, Proto, Stop, Frame, PersID, BinPersID,
+    ]
+};
+
+/// opcode byte -> kind (None for bytes that are not opcodes)
+pub fn opcode_of_u8(b: u8) -> Option<OpcodeKind> {
+    ALL_OPCODES.iter().copied().find(|o| o.as_u8() == b)
+}
+
+/// Debug name of the opcode with this byte
+pub fn opcode_name(b: u8) -> Option<String> {
+    opcode_of_u8(b).map(|o| format!("{:?}", o))
+}
+
+/// (Debug name, byte) of every opcode kind, in declaration order
+pub fn opcode_table() -> Vec<(String, u8)> {
+    ALL_OPCODES
+        .iter()
+        .map(|o| (format!("{:?}", o), o.as_u8()))
+        .collect()
+}
+
+/// opcode bytes of the per-protocol table `PICKLE_OPCODES[version]`, in table order
+pub fn protocol_table(version: u8) -> Vec<u8> {
+    PICKLE_OPCODES
+        .get(&version)
+        .map(|t| t.iter().map(|o| o.as_u8()).collect())
+        .unwrap_or_default()
+}
+
+/// the simulated VM state as seen by the guards
+#[derive(Debug, Clone, PartialEq, Eq)]
+pub struct Snapshot {
+    /// kind codes of the stack slots, bottom first
+    pub stack: String,
+    /// memo keys (sorted) with the kind code stored under each
+    pub memo: Vec<(usize, char)>,
+    /// bytes emitted so far
+    pub out_len: usize,
+    /// `state.proto_emitted`
+    pub proto_emitted: bool,
+}
+
+pub fn snapshot(g: &Generator) -> Snapshot {
+    let stack: String = g
+        .state
+        .stack
+        .inner
+        .iter()
+        .map(|o| kind_code(&o.borrow()))
+        .collect();
+    let mut memo: Vec<(usize, char)> = g
+        .state
+        .memo
+        .iter()
+        .map(|(k, v)| (*k, kind_code(&v.borrow())))
+        .collect();
+    memo.sort_unstable();
+    Snapshot {
+        stack,
+        memo,
+        out_len: g.output.len(),
+        proto_emitted: g.state.proto_emitted,
+    }
+}
+
+/// one record of the generation trace
+#[derive(Debug, Clone)]
+pub enum Rec {
+    /// `target_opcodes` was drawn (state before the body loop)
+    Target { target: usize, pre: Snapshot },
+    /// `process_stack_ops(op, arg)` is about to run; `pre.out_len` already includes the bytes
+    /// of this opcode
+    Op {
+        op: u8,
+        arg: Option<Vec<u8>>,
+        pre: Snapshot,
+    },
+    /// the body loop has ended
+    BodyEnd { pre: Snapshot },
+    /// generation finished (after STOP and the FRAME patch)
+    Final { post: Snapshot },
+    /// a value mutator returned `Some` (kind: 'i','f','s','y','m')
+    Mutated { kind: char },
+    /// a `post_process` call changed the output buffer
+    Rewritten,
+}
+
+thread_local! {
+    static TRACE: RefCell<Option<Vec<Rec>>> = const { RefCell::new(None) };
+}
+
+/// start recording on this thread (drops any earlier recording)
+pub fn trace_start() {
+    TRACE.with(|t| *t.borrow_mut() = Some(Vec::new()));
+}
+
+/// stop recording and return what was recorded
+pub fn trace_take() -> Vec<Rec> {
+    TRACE.with(|t| t.borrow_mut().take().unwrap_or_default())
+}
+
+fn record(f: impl FnOnce() -> Rec) {
+    TRACE.with(|t| {
+        if let Some(v) = t.borrow_mut().as_mut() {
+            v.push(f());
+        }
+    });
+}
+
+pub(super) fn trace_op(g: &Generator, op: OpcodeKind, arg: Option<&[u8]>) {
+    record(|| Rec::Op {
+        op: op.as_u8(),
+        arg: arg.map(|a| a.to_vec()),
+        pre: snapshot(g),
+    });
+}
+
+pub(super) fn trace_target(g: &Generator, target: usize) {
+    record(|| Rec::Target {
+        target,
+        pre: snapshot(g),
+    });
+}
+
+pub(super) fn trace_body_end(g: &Generator) {
+    record(|| Rec::BodyEnd { pre: snapshot(g) });
+}
+
+pub(super) fn trace_final(g: &Generator) {
+    record(|| Rec::Final { post: snapshot(g) });
+}
+
+#[allow(dead_code)]
+pub(super) fn trace_mutated(kind: char) {
+    record(|| Rec::Mutated { kind });
+}
+
+#[allow(dead_code)]
+pub(super) fn trace_rewritten() {
+    record(|| Rec::Rewritten);
+}
+
+/// a generator whose simulated state is the given one (stack bottom first)
+pub fn with_state(
+    version: usize,
+    unsafe_mutations: bool,
+    allow_ext: bool,
+    allow_buffer: bool,
+    stack: &str,
+    memo: &[(usize, char)],
+    proto_emitted: bool,
+) -> Option<Generator> {
+    let version = Version::try_from(version).ok()?;
+    let mut g = Generator::new(version)
+        .with_unsafe_mutations(unsafe_mutations)
+        .with_ext_opcodes(allow_ext)
+        .with_buffer_opcodes(allow_buffer);
+    for c in stack.chars() {
+        g.state.stack.push(object_of_code(c)?);
+    }
+    for (k, c) in memo {
+        g.state
+            .memo
+            .insert(*k, StackObjectRef::new(object_of_code(*c)?));
+    }
+    g.state.proto_emitted = proto_emitted;
+    Some(g)
+}
+
+/// `can_emit` for the opcode with this byte
+pub fn can_emit(g: &Generator, op: u8) -> Option<bool> {
+    opcode_of_u8(op).map(|o| g.can_emit(o))
+}
+
+/// `get_valid_opcodes`, as opcode bytes
+pub fn valid_opcodes(g: &Generator) -> Vec<u8> {
+    g.get_valid_opcodes().iter().map(|o| o.as_u8()).collect()
+}
+
+/// `process_stack_ops`
+pub fn apply(g: &mut Generator, op: u8, arg: Option<&[u8]>) -> bool {
+    match opcode_of_u8(op) {
+        Some(o) => {
+            g.process_stack_ops(o, arg);
+            true
+        }
+        None => false,
+    }
+}
+
+/// `cleanup_for_stop`; returns the bytes it emitted
+pub fn cleanup(g: &mut Generator) -> Vec<u8> {
+    let before = g.output.len();
+    g.cleanup_for_stop();
+    g.output[before..].to_vec()
+}
+
+/// run `f` with a seeded PRNG entropy source
+pub fn with_rand_source<R>(seed: u64, f: impl FnOnce(&mut GenerationSource) -> R) -> R {
+    let mut rng = ChaCha8Rng::seed_from_u64(seed);
+    let mut source = GenerationSource::Rand(&mut rng);
+    f(&mut source)
+}
+
+/// run `f` with a fuzzer-bytes entropy source; also returns how many bytes were left
+pub fn with_arbitrary_source<R>(
+    data: &[u8],
+    f: impl FnOnce(&mut GenerationSource) -> R,
+) -> (R, usize) {
+    let mut u = Unstructured::new(data);
+    let mut source = GenerationSource::Arbitrary(&mut u);
+    let r = f(&mut source);
+    let left = match &source {
+        GenerationSource::Arbitrary(u) => u.len(),
+        GenerationSource::Rand(_) => 0,
+    };
+    (r, left)
+}
